@@ -38,12 +38,11 @@ def consts(ctx):
 
 def init_chain(ctx):
     A = 'NUTSChain::init_chain (via run)'
-    b = ctx.anchor(A, name='init_chain', self_head=CH, container='inherent')
-    bf = ctx.anchor('fre', path='nuts::find_reasonable_epsilon')
+    b = ctx.helper('nuts.init_chain')
     if b is None:
         ctx.unknown('C04.init', A, 'anchor', why='anchor not found')
         return
-    frekey = 'nuts::find_reasonable_epsilon'
+    frekey = ctx.helper_key('nuts.fre', 'nuts::find_reasonable_epsilon')
     ev = ctx.evaluate(b, no_inline=(frekey,))
     sp = b['sp']
     eps0, pos0, tgt = selff('epsilon'), selff('position'), selff('target')
@@ -68,7 +67,7 @@ def init_chain(ctx):
 
 def fre(ctx):
     A = 'find_reasonable_epsilon'
-    b = ctx.anchor(A, path='nuts::find_reasonable_epsilon')
+    b = ctx.helper('nuts.fre')
     if b is None:
         ctx.unknown('C04.fre', A, 'anchor', why='anchor not found')
         return
@@ -214,13 +213,14 @@ def writers(ctx, adt, field):
 
 def writeset(ctx):
     A = 'crate (write set of nuts::NUTSChain adaptation fields)'
+    IC = ctx.helper_key('nuts.init_chain', 'nuts::NUTSChain::init_chain')
     exp = {
-        'epsilon': {('nuts::NUTSChain::new', 'ctor'), ('nuts::NUTSChain::init_chain', 'Assign'), ('nuts::NUTSChain::step', 'Assign')},
+        'epsilon': {('nuts::NUTSChain::new', 'ctor'), (IC, 'Assign'), ('nuts::NUTSChain::step', 'Assign')},
         'epsilon_bar': {('nuts::NUTSChain::new', 'ctor'), ('nuts::NUTSChain::step', 'Assign')},
         'm': {('nuts::NUTSChain::new', 'ctor'), ('nuts::NUTSChain::step', 'AssignOp')},
-        'n_discard': {('nuts::NUTSChain::new', 'ctor'), ('nuts::NUTSChain::init_chain', 'Assign')},
+        'n_discard': {('nuts::NUTSChain::new', 'ctor'), (IC, 'Assign')},
         'h_bar': {('nuts::NUTSChain::new', 'ctor'), ('nuts::NUTSChain::step', 'Assign')},
-        'mu': {('nuts::NUTSChain::new', 'ctor'), ('nuts::NUTSChain::init_chain', 'Assign')},
+        'mu': {('nuts::NUTSChain::new', 'ctor'), (IC, 'Assign')},
         'gamma': {('nuts::NUTSChain::new', 'ctor')}, 't_0': {('nuts::NUTSChain::new', 'ctor')}, 'kappa': {('nuts::NUTSChain::new', 'ctor')},
     }
     st = ctx.facts.structs.get(CH)
